@@ -185,8 +185,32 @@ func cmdTokens(args []string) {
 	fmt.Printf("{\"events\":%d}\n", em.N)
 }
 
+type pendingRT struct {
+	ts  spg.Tokens
+	ent float32
+	how string
+	enc EncRes
+}
+
+var rtBatch []pendingRT
+
+// emitRT encodes now and decodes later: indices of a whole batch are produced before any of them is used,
+// so that an index must not depend on MakeIndices calls made after it.
 func emitRT(em *Emitter, ts spg.Tokens, ent float32, how string) {
-	enc := encode(ts)
+	rtBatch = append(rtBatch, pendingRT{ts, ent, how, encode(ts)})
+	if len(rtBatch) >= 6 {
+		flushRT(em)
+	}
+}
+
+func flushRT(em *Emitter) {
+	for _, p := range rtBatch {
+		emitRTNow(em, p.ts, p.ent, p.how, p.enc)
+	}
+	rtBatch = nil
+}
+
+func emitRTNow(em *Emitter, ts spg.Tokens, ent float32, how string, enc EncRes) {
 	p := spg.Password{}
 	_ = p
 	str := ""
